@@ -1,4 +1,5 @@
 import OpenFecVerif.Proofs.ITExec
+import OpenFecVerif.Model.Api
 /-!
 # C04 — LDPC-Staircase streaming decoding = peeling closure, for any arrival order
 
@@ -96,6 +97,52 @@ theorem C04_order_dup_independent (O : Ops σ) (n k : Nat) (Hl : List (List Nat)
   · have a := h1.2.2.1
     have b := h2.2.2.1
     cases ha : (runExec O n k Hl l).complete <;> cases hb : (runExec O n k Hl l').complete <;> simp_all
+
+open Api
+
+/-- a sequence of `of_decode_with_new_symbol` calls on the session model (ESI, value, index of the application buffer) -/
+def recvAll (IO : SymIO σ) (p : Params) : Session σ → List (Nat × σ × Nat) → Session σ
+  | s, [] => s
+  | s, x :: t => recvAll IO p (ldpcRecv IO s p x.1 x.2.1 x.2.2).2.1 t
+
+theorem recvAll_it (IO : SymIO σ) (p : Params) (l : List (Nat × σ × Nat)) : ∀ (s : Session σ) (it : IT.St σ), s.it = some it →
+    s.mlConsumed = false →
+    (recvAll IO p s l).it = some (l.foldl (fun t x => IT.submit (IO.ops 3 p.m p.len) p.n t x.1 x.2.1) it) ∧
+    (recvAll IO p s l).mlConsumed = false := by
+  induction l with
+  | nil => intro s it h hc; exact ⟨h, hc⟩
+  | cons x t ih =>
+    intro s it h hc
+    simp only [recvAll, List.foldl_cons]
+    apply ih
+    · unfold ldpcRecv ldpcAfter; simp only [h, hc]; rfl
+    · unfold ldpcRecv ldpcAfter; simp only [h]; split <;> simp [hc]
+
+/-- **C04 for sessions.**  A decoder session whose iterative decoder was started from the initial state of a well-formed matrix
+(`pre` = the pretended reception of the zero last repair symbol by an even-N1 decoder, or nothing) and then driven by any sequence of
+`of_decode_with_new_symbol` calls: the symbols it knows are exactly the peeling closure of what was submitted, and completion is
+reported exactly when the closure contains all k source symbols.  With `C05_matrix_wf` the well-formedness hypothesis holds for every
+accepted LDPC-Staircase configuration. -/
+theorem C04_session (IO : SymIO σ) (p : Params) (Hl : List (List Nat)) (hwf : wfCheck p.n Hl = true) (pre : List (Nat × σ))
+    (s : Session σ) (hit : s.it = some (runExec (IO.ops 3 p.m p.len) p.n p.k Hl pre)) (hcons : s.mlConsumed = false)
+    (l : List (Nat × σ × Nat)) (hpre : ∀ x ∈ pre, x.1 < p.n) (hl : ∀ x ∈ l, x.1 < p.n) :
+    ∃ it', (recvAll IO p s l).it = some it' ∧
+      (it'.complete = true ↔ ∀ i, i < p.k → InClosure (Hf Hl) (fun e => e ∈ (pre.map (·.1)) ++ (l.map (·.1))) i) ∧
+      (∀ i, i < p.k → (it'.known i = true ↔ InClosure (Hf Hl) (fun e => e ∈ (pre.map (·.1)) ++ (l.map (·.1))) i)) := by
+  obtain ⟨h1, _⟩ := recvAll_it IO p l s _ hit hcons
+  have hrun : l.foldl (fun t x => IT.submit (IO.ops 3 p.m p.len) p.n t x.1 x.2.1) (runExec (IO.ops 3 p.m p.len) p.n p.k Hl pre)
+      = runExec (IO.ops 3 p.m p.len) p.n p.k Hl (pre ++ l.map fun x => (x.1, x.2.1)) := by
+    unfold runExec
+    rw [List.foldl_append, List.foldl_map]
+  refine ⟨_, h1, ?_⟩
+  rw [hrun]
+  have key := C04_eq (IO.ops 3 p.m p.len) p.n p.k Hl hwf (pre ++ l.map fun x => (x.1, x.2.1))
+    (by intro x hx
+        rcases List.mem_append.mp hx with h | h
+        · exact hpre x h
+        · obtain ⟨y, hy, rfl⟩ := List.mem_map.mp h; exact hl y hy)
+  simp only [List.map_append, List.map_map, Function.comp] at key
+  exact ⟨key.2.2.1, key.2.2.2⟩
 
 -- non-vacuity: the RFC 5170 matrix for k = 4, n = 8, N1 = 3, seed 7 (the one the smoke test prints) is well-formed
 example : wfCheck 8 [[0, 1, 2, 4], [0, 2, 3, 4, 5], [1, 2, 3, 5, 6], [0, 1, 3, 6, 7]] = true := by decide
